@@ -133,6 +133,25 @@ Record MInv (s : sys) : Prop := mkMInv {
   mi_distinct : forall b1 b2 i, alive s b1 = true -> alive s b2 = true ->
                        b_target (get_bar s b1) = TMulti i -> b_target (get_bar s b2) = TMulti i -> b1 = b2 }.
 
+(** the slot-allocation part of MultiState (statement vocabulary of C02_slot_reset) *)
+Record CoreInv (m : mstate) : Prop := mkCI {
+  ci_nd_order : NoDup (ms_order m);
+  ci_nd_free : NoDup (ms_free m);
+  ci_disj : forall i, In i (ms_order m) -> ~ In i (ms_free m);
+  ci_bound : forall i, In i (ms_order m) \/ In i (ms_free m) -> (N.to_nat i < length (ms_members m))%nat;
+  ci_len : length (ms_members m) = (length (ms_order m) + length (ms_free m))%nat;
+  ci_free_default : forall i, In i (ms_free m) -> nthN (ms_members m) i member_default = member_default }.
+
+(** MultiState::insert on a plain list of slots *)
+Definition l_ins (l : iloc) (ord : list N) (idx : N) : option (list N) :=
+  match l with
+  | LEnd => Some (ord ++ [idx])
+  | LIndex p => Some (insert_at ord (Nat.min (N.to_nat p) (length ord)) idx)
+  | LFromBack p => Some (insert_at ord (length ord - N.to_nat p) idx)
+  | LAfter r => match posN r ord with Some p => Some (insert_at ord (S p) idx) | None => None end
+  | LBefore r => match posN r ord with Some p => Some (insert_at ord p idx) | None => None end
+  end.
+
 (* ------------------------------------------------------------------ what a multi draw does *)
 Section Draws.
   Variable W H : N.
@@ -168,6 +187,14 @@ Section Draws.
   Definition zombie_rows (m : mstate) : N :=
     fold_left (fun a i => a + member_vlc (nthN (ms_members m) i member_default) W)
               (head_zombies (ms_order m) (ms_members m)) 0.
+
+  (** the drawing event of one MultiState::draw: the exact arguments of draw_to_term
+      (statement vocabulary of C02_frame) *)
+  Definition ms_draw_event (m : mstate) (extra : option (list line)) : list termop * N * bool :=
+    match ms_target m with
+    | TTerm tg => draw_to_term (ms_frame m extra) (ms_erase_n m extra) (ms_align m) (tt_below tg) W H
+    | _ => ([], 0, false)
+    end.
 End Draws.
 
 (* ------------------------------------------------------------------ the multi-level calls of one step *)
